@@ -55,7 +55,7 @@ abbrev julyYears := Gen.july_years
 
 /-- `january_years(year + 1)` is a plain i32 addition, evaluated (short-circuit `&&`/`||`) exactly
     when month = 12, day = 31, hour = 23, minute = 59 — and, since fix b159cb8, only when
-    `year < i32::MAX`: the overflow test below can therefore never fire (repaired defect D26). -/
+    `year < i32::MAX`: the overflow test below can therefore never fire (repaired defect D29). -/
 def validPanics (y mo d h mi : Int) : Bool :=
   decide (mo = 12 ∧ d = usualDaysPerMonth mo ∧ h = 23 ∧ mi = 59 ∧ y < 2147483647 ∧ y + 1 > 2147483647)
 
